@@ -334,3 +334,13 @@ theorem rclosedB_sound (g : G) (h : rclosedB g = true) : RClosed g := by
   · cases hmem
 
 end FgaVerif.Model.WAssign
+
+namespace FgaVerif.Model.WAssign
+open FgaVerif.Model FgaVerif.Model.WGraph
+
+theorem RPath.last {g : G} {x y : String} (h : RPath g x y) : ∃ z, RStep g z y := by
+  induction h with
+  | one hs => exact ⟨_, hs⟩
+  | cons _ _ ih => exact ih
+
+end FgaVerif.Model.WAssign
